@@ -176,10 +176,39 @@ class RenamePrivate(ast.NodeTransformer):
         return node
 
 
+class Annotate(ast.NodeTransformer):
+    """x = <literal>  ->  x: <type> = <literal>  (names and self attributes), and `-> None` on __init__"""
+
+    def visit_Assign(self, node):
+        global count
+        self.generic_visit(node)
+        if len(node.targets) != 1:
+            return node
+        t, v = node.targets[0], node.value
+        simple = isinstance(t, ast.Attribute) and isinstance(t.value, ast.Name) and t.value.id == "self"
+        ty = None
+        if isinstance(v, ast.List):
+            ty = "list"
+        elif isinstance(v, ast.Dict):
+            ty = "dict"
+        elif isinstance(v, ast.Constant) and type(v.value) in (int, bool, str):
+            ty = type(v.value).__name__
+        if simple and ty:
+            count += 1
+            return ast.AnnAssign(target=t, annotation=ast.Name(id=ty, ctx=ast.Load()), value=v, simple=1 if isinstance(t, ast.Name) else 0)
+        return node
+
+    def visit_FunctionDef(self, node):
+        self.generic_visit(node)
+        if node.name == "__init__" and node.returns is None:
+            node.returns = ast.Constant(value=None)
+        return node
+
+
 if kind == "rename-private":
     RenamePrivate.names = _private_defined(dest)
 
-T = {"rename-private": RenamePrivate, "invert-if": InvertIf, "add-logging": AddLogging, "pass-stmts": PassStmts, "nest-and": NestAnd,
+T = {"annotate": Annotate, "rename-private": RenamePrivate, "invert-if": InvertIf, "add-logging": AddLogging, "pass-stmts": PassStmts, "nest-and": NestAnd,
      "merge-and": MergeAnd, "expand-aug": ExpandAug}[kind]
 for root, _, files in os.walk(os.path.join(dest, "parglare")):
     for fn in files:
